@@ -100,8 +100,12 @@ def menu(b, tier="quick"):
          ["sc_motor", h0, 2. * big, 1.0, True],
          ["ward", h0, True],
          ["shunt", h0, 0.1 * big, -0.5 * big, 1, 1.0, True]]
+    if b in ("R3", "T3"):     # bus 3 is fused with the collision bus 2: a second generator with another K_G on the same node
+        m += [["sc_gen", 3, 1.05, 6., 5., True]]
     if b == "T3":
-        m += [["sc_psgen", 0, 1.0, True, None], ["sc_psgen", 0, 1.05, False, None]]
+        m += [["sc_psgen", 0, 1.0, True, None], ["sc_psgen", 0, 1.05, False, None],
+              ["set", "trafo", 0, "vector_group", "YNyn"], ["set", "trafo", 0, "vector_group", "Yzn"],
+              ["set", "trafo", 0, "vector_group", "Yyn"]]
     if b in ("R3", "T3"):
         m += [["sc_lv", h0]]
     if tier == "thorough":
@@ -117,8 +121,13 @@ def menu(b, tier="quick"):
         if b == "R3":
             m += [["line", 0, 2, 1, True], ["set", "switch", 0, "closed", False], ["set", "switch", 1, "closed", False]]
         if b == "W3":
-            m += [["switch", 2, 0, "t3", False, 0.]]
+            m += [["switch", 2, 0, "t3", False, 0.], ["set", "trafo3w", 0, "vector_group", "YNdyn"]]
     return m
+
+
+def zero_sequence_only(d):
+    """deviations that only change zero-sequence data (judged for fault 1ph only)"""
+    return d[0] == "set" and d[3] == "vector_group"
 
 
 def compatible(devs):
